@@ -1,7 +1,7 @@
 /-
   C04 — property theorems only. Change detection is exact.
 
-  `a ≈ b` (`Equiv`) is the equivalence the real `diffs.diff` decides: Python `==` (`J.pyEq`, so
+  `a ≈ b` (`Equiv`) is the equivalence the real `diffs.diff` decides: Python `==` (`same`, so
   `True == 1`, dict key order irrelevant) modulo object keys whose value is `null` (`J.dropNulls`:
   `diff_iter(None, None)` yields nothing, so a null-valued key and an absent key are the same to it).
   Both deviations from JSON equality are real deviations from the property text — a field may change
@@ -23,7 +23,7 @@ open Kopf Kopf.J
 def hashes0 : Hashes := [("", "-EnHPJQ")]
 
 /-- Python equality modulo null-valued object keys. -/
-def Equiv (a b : J) : Prop := pyEq (dropNulls a) (dropNulls b) = true
+def Equiv (a b : J) : Prop := same (dropNulls a) (dropNulls b) = true
 infix:50 " ≈ " => Equiv
 
 /-! ## the diff -/
